@@ -7,26 +7,31 @@ Model of `Computable` / `Computed` (mesa_signal.py) on top of the Signals regist
 * a Computed's function is a *read tree*: what it returns depends only on what it reads, in
   the order it reads it; `write` nodes are the assignments a function may perform (cycle detection);
 * `Computed.__call__`, `Computable.__get__`, `Observable.__set__`, `_set_dirty`, `_add_parent`,
-  `_remove_parents` follow the repaired code (G4, G8, G9, G10 repaired; G7 open: `Observable.__set__`
-  notifies before it stores, and a user handler may read Computables while being notified);
+  `_remove_parents` follow the repaired code (G4, G7, G8, G9, G10, G11, G12 repaired; G7: `Observable.__set__`
+  stores before it notifies, and a notification reaches the dependent Computeds before the user handlers, which may
+  read Computables while being notified);
 * `proc` = `PROCESSING_SIGNALS` (what the evaluating functions have read) grows over one outermost evaluation,
   nested ones included, and is cleared when `depth` = `EVALUATION_DEPTH` returns to 0 (G10 repaired: no
   assignment clears it);
 * the mutually recursive calls (read → notify → set_dirty → notify …, read → read) go through
   one fuel-indexed function `exec`; `none` = out of fuel (Python: RecursionError / no termination).
-The notification loop iterates over a snapshot of the subscriber list and overwrites the entry
-afterwards, as `_mesa_notify` does.
+The notification loop iterates over a snapshot of the subscriber list, skips what has been unsubscribed
+meanwhile and prunes the dead references of the current list afterwards, as `_mesa_notify` does (G13 repaired).
 -/
 namespace Mesa.Computed
 open Mesa.Signals
 
 abbrev Key := Nat × Nat
 
+/-- a value: an int or Python's `None` -/
+abbrev V := Option Int
+
 inductive Tree where
-  | ret (v : Int)
-  | read (k : Key) (cont : Int → Tree)
-  | readC (c : Nat) (cont : Int → Tree)
-  | write (k : Key) (v : Int) (next : Tree)
+  | ret (v : V)
+  | read (k : Key) (cont : V → Tree)
+  | readC (c : Nat) (cont : V → Tree)
+  | write (k : Key) (v : V) (next : Tree)
+  | fail                                    -- the function raises (an exception of its own, `Err.user`)
 
 /-- what a Computed remembers a value for: an Observable, or another Computable -/
 inductive PRef where
@@ -46,8 +51,8 @@ structure Comp where
   tree : Tree
   dirty : Bool := true
   first : Bool := true
-  value : Option Int := none
-  parents : List (PRef × Int) := []     -- `parents[owner][name] = value`, flattened in iteration order
+  value : Option V := none              -- `_value` (`none`: never computed; Python has `None` there as well)
+  parents : List (PRef × V) := []     -- `parents[owner][name] = value`, flattened in iteration order
   evals : Nat := 0                      -- how often the function body ran (instrumentation)
 
 /-- a call of a user handler: handler, owner, name, old, new -/
@@ -55,14 +60,14 @@ structure Entry where
   h : Nat
   owner : Nat
   name : Nat
-  old : Option Int
-  new : Option Int
+  old : V
+  new : V
 deriving Repr, DecidableEq
 
 structure St where
   regs : Nat → Reg Sub
   dead : List Nat
-  store : Key → Int
+  store : Key → V
   comps : Nat → Option Comp
   cur : Option Nat := none              -- CURRENT_COMPUTED
   proc : List Key := []                 -- PROCESSING_SIGNALS
@@ -87,44 +92,44 @@ def St.keyOf (s : St) : PRef → Option Key
 
 /-- insertion of a new key into the flattened dict of dicts: at the end of its owner's group,
     or at the very end when the owner has no group yet -/
-def insertAfterGroup (ownerOf : PRef → Nat) (o : Nat) (e : PRef × Int) : List (PRef × Int) → List (PRef × Int)
+def insertAfterGroup (ownerOf : PRef → Nat) (o : Nat) (e : PRef × V) : List (PRef × V) → List (PRef × V)
   | [] => [e]
   | x :: rest =>
     if ownerOf x.1 = o ∧ !(rest.any fun y => ownerOf y.1 = o) then x :: e :: rest
     else x :: insertAfterGroup ownerOf o e rest
 
 /-- `parents[owner][name] = value`: an existing key keeps its place and gets the new value -/
-def insertParent (ownerOf : PRef → Nat) (r : PRef) (v : Int) (ps : List (PRef × Int)) : List (PRef × Int) :=
+def insertParent (ownerOf : PRef → Nat) (r : PRef) (v : V) (ps : List (PRef × V)) : List (PRef × V) :=
   if ps.any (fun e => e.1 = r) then ps.map fun e => if e.1 = r then (r, v) else e
   else insertAfterGroup ownerOf (ownerOf r) (r, v) ps
 
 def St.ownerOf (s : St) (r : PRef) : Nat := ((s.keyOf r).getD (0, 0)).1
 
 inductive Task where
-  | notify (k : Key) (old new : Option Int)
+  | notify (k : Key) (old new : V)
   | readC (c : Nat)
-  | assign (k : Key) (v : Int)
+  | assign (k : Key) (v : V)
 
 inductive R where
-  | ok (v : Int)
+  | ok (v : V)
   | err (e : Err)
 deriving Repr, DecidableEq
 
 abbrev Rec := Task → St → Option (St × R)
 
 /-- `Computed._add_parent`: subscribe `_set_dirty` to every signal of the parent, remember the value -/
-def addParent (s : St) (p : Nat) (r : PRef) (v : Int) : St × R :=
+def addParent (s : St) (p : Nat) (r : PRef) (v : V) : St × R :=
   match s.keyOf r, s.comps p with
   | some (o, n), some x =>
     match (s.regs o).observe (.one n) .all (Sub.dirty p) with
     | .error e => (s, .err e)
     | .ok reg =>
       let s1 := s.setReg o reg
-      (s1.setComp p { x with parents := insertParent s.ownerOf r v x.parents }, .ok 0)
+      (s1.setComp p { x with parents := insertParent s.ownerOf r v x.parents }, .ok none)
   | _, _ => (s, .err .attr)
 
 /-- distinct owners of the remembered parents, in dict order -/
-def parentOwners (s : St) (ps : List (PRef × Int)) : List Nat :=
+def parentOwners (s : St) (ps : List (PRef × V)) : List Nat :=
   (ps.map fun e => s.ownerOf e.1).eraseDups
 
 /-- `Computed._remove_parents` (G4 repaired: the remembered values are cleared too) -/
@@ -160,35 +165,37 @@ def evalTree (rec : Rec) : Tree → St → Option (St × R)
     | none => none
     | some (s1, .err e) => some (s1, .err e)
     | some (s1, .ok _) => evalTree rec next s1
+  | .fail, s => some (s, .err .user)
 
-/-- the dirty pre-check of `Computed.__call__`: `true` = some remembered value differs (early exit) -/
-def precheck (rec : Rec) : List (PRef × Int) → St → Option (St × Except Err Bool)
+/-- the dirty pre-check of `Computed.__call__`: `true` = some remembered value differs (early exit); a remembered
+    Computable that raises now counts as changed (G12 repaired: the exception is not passed on, the function decides
+    whether it still reads that Computable) -/
+def precheck (rec : Rec) : List (PRef × V) → St → Option (St × Except Err Bool)
   | [], s => some (s, .ok false)
   | (.obs k, v) :: rest, s =>
     if s.store k ≠ v then some (s, .ok true) else precheck rec rest s
   | (.comp c, v) :: rest, s =>
     match rec (.readC c) s with
     | none => none
-    | some (s1, .err .noneVal) => some (s1, .ok true)      -- `None != v`
-    | some (s1, .err e) => some (s1, .error e)
+    | some (s1, .err _) => some (s1, .ok true)      -- it raised
     | some (s1, .ok v') => if v' ≠ v then some (s1, .ok true) else precheck rec rest s1
 
 /-- what a user handler does after recording: read Computables -/
 def readAll (rec : Rec) : List Nat → St → Option (St × R)
-  | [], s => some (s, .ok 0)
+  | [], s => some (s, .ok none)
   | c :: cs, s =>
     match rec (.readC c) s with
     | none => none
-    | some (s1, .err .noneVal) => readAll rec cs s1
     | some (s1, .err e) => some (s1, .err e)
     | some (s1, .ok _) => readAll rec cs s1
 
-/-- `_mesa_notify`: call the live observers of the snapshot in order, collect the live ones -/
-def notifyLoop (rec : Rec) (k : Key) (old new : Option Int) :
-    List Sub → List Sub → St → Option (St × Except Err (List Sub))
-  | [], act, s => some (s, .ok act)
-  | x :: xs, act, s =>
-    if !s.alive x then notifyLoop rec k old new xs act s
+/-- `_mesa_notify` (G13 repaired): the observers the signal had when it was emitted, in order; one that has died is
+    skipped, and so is one that is no longer in the list as it is now (what a handler called before — here: the
+    re-evaluation of a Computed, `_remove_parents` — has unsubscribed meanwhile) -/
+def notifyLoop (rec : Rec) (k : Key) (old new : V) : List Sub → St → Option (St × Except Err Unit)
+  | [], s => some (s, .ok ())
+  | x :: xs, s =>
+    if !s.alive x || !(((s.regs k.1).subs k.2 .change).contains x) then notifyLoop rec k old new xs s
     else
       match x with
       | .dirty c =>
@@ -196,44 +203,67 @@ def notifyLoop (rec : Rec) (k : Key) (old new : Option Int) :
         match s.comps c with
         | none => some (s, .error .attr)
         | some cx =>
-          if cx.dirty then notifyLoop rec k old new xs (act ++ [x]) s
+          if cx.dirty then notifyLoop rec k old new xs s
           else
-            match rec (.notify (cx.owner, cx.name) cx.value none) (s.setComp c { cx with dirty := true }) with
+            match rec (.notify (cx.owner, cx.name) cx.value.join none) (s.setComp c { cx with dirty := true }) with
             | none => none
             | some (s1, .err e) => some (s1, .error e)
-            | some (s1, .ok _) => notifyLoop rec k old new xs (act ++ [x]) s1
+            | some (s1, .ok _) => notifyLoop rec k old new xs s1
       | .user h =>
         -- a user handler: records the signal, then reads the Computables of its program
         let s0 := { s with log := s.log ++ [⟨h, k.1, k.2, old, new⟩] }
         match readAll rec (s.progs h) s0 with
         | none => none
         | some (s1, .err e) => some (s1, .error e)
-        | some (s1, .ok _) => notifyLoop rec k old new xs (act ++ [x]) s1
+        | some (s1, .ok _) => notifyLoop rec k old new xs s1
 
-/-- `HasObservables.notify` + `_mesa_notify` for the `change` signal of key `k` -/
-def notifyT (rec : Rec) (k : Key) (old new : Option Int) (s : St) : Option (St × R) :=
-  match notifyLoop rec k old new ((s.regs k.1).subs k.2 .change) [] s with
+/-- the observer is the `_set_dirty` of a Computed (a dependent), not a user handler -/
+def Sub.isDep : Sub → Bool
+  | .dirty _ => true
+  | .user _ => false
+
+/-- `HasObservables.notify` + `_mesa_notify` for the `change` signal of key `k` (G7 repaired): first the dependents
+    (the `_set_dirty` of the Computeds subscribed), then the user handlers, each group in subscription order — every
+    Computable that depends on `k` is dirty before a handler can read it; afterwards the dead references are dropped
+    from the list as it is then -/
+def notifyT (rec : Rec) (k : Key) (old new : V) (s : St) : Option (St × R) :=
+  let snap := (s.regs k.1).subs k.2 .change
+  match notifyLoop rec k old new (snap.filter Sub.isDep) s with
   | none => none
   | some (s1, .error e) => some (s1, .err e)
-  | some (s1, .ok act) => some (s1.setReg k.1 ((s1.regs k.1).setSubs k.2 .change act), .ok 0)
+  | some (s1, .ok _) =>
+    match notifyLoop rec k old new (snap.filter fun x => !x.isDep) s1 with
+    | none => none
+    | some (s2, .error e) => some (s2, .err e)
+    | some (s2, .ok _) =>
+      some (s2.setReg k.1 ((s2.regs k.1).setSubs k.2 .change (((s2.regs k.1).subs k.2 .change).filter s2.alive)),
+        .ok none)
 
-/-- `Observable.__set__`: cycle check, notify, store (G10 repaired: PROCESSING_SIGNALS is left alone) -/
-def assignT (rec : Rec) (k : Key) (v : Int) (s : St) : Option (St × R) :=
+/-- `Observable.__set__`: cycle check, **store, then notify** (G7 repaired: whoever reads while being notified sees
+    the new value; G10 repaired: PROCESSING_SIGNALS is left alone) -/
+def assignT (rec : Rec) (k : Key) (v : V) (s : St) : Option (St × R) :=
   if s.cur.isSome ∧ s.proc.contains k then some (s, .err .value)
   else
-    match rec (.notify k (some (s.store k)) (some v)) s with
+    match rec (.notify k (s.store k) v) { s with store := fun k' => if k' = k then v else s.store k' } with
     | none => none
     | some (s1, .err e) => some (s1, .err e)
-    | some (s1, .ok _) =>
-      some ({ s1 with store := fun k' => if k' = k then v else s1.store k' }, .ok 0)
+    | some (s1, .ok _) => some (s1, .ok none)
 
 /-- the `finally` of an evaluation: restore `CURRENT_COMPUTED`, one function body less is running; when the
     outermost one is over, what it read is forgotten -/
 def leave (saved : Option Nat) (s : St) : St :=
   { s with cur := saved, depth := s.depth - 1, proc := if s.depth - 1 = 0 then [] else s.proc }
 
+/-- the `except` of an evaluation (G11 repaired): nothing was computed, so the next read runs the function again
+    (`_first = True`) instead of re-validating the value cached before the failure -/
+def markFailed (s : St) (c : Nat) : St :=
+  match s.comps c with
+  | none => s
+  | some x => s.setComp c { x with first := true }
+
 /-- the re-evaluation branch of `Computed.__call__`: forget the parents, run the function with
-    `CURRENT_COMPUTED = c` and `EVALUATION_DEPTH + 1` (both restored in `finally`), store the value, become clean -/
+    `CURRENT_COMPUTED = c` and `EVALUATION_DEPTH + 1` (both restored in `finally`), store the value, become clean;
+    if the function raises: `markFailed` -/
 def evalBody (rec : Rec) (c : Nat) (tree : Tree) (saved : Option Nat) (s1 : St) : Option (St × R) :=
   let s2 := removeParents s1 c
   match s2.comps c with
@@ -242,7 +272,7 @@ def evalBody (rec : Rec) (c : Nat) (tree : Tree) (saved : Option Nat) (s1 : St) 
     let s3 := { (s2.setComp c { x2 with evals := x2.evals + 1 }) with cur := some c, depth := s2.depth + 1 }
     match evalTree rec tree s3 with
     | none => none
-    | some (s4, .err e) => some (leave saved s4, .err e)
+    | some (s4, .err e) => some (leave saved (markFailed s4 c), .err e)
     | some (s4, .ok v) =>
       match s4.comps c with
       | none => some (leave saved s4, .err .attr)
@@ -250,7 +280,7 @@ def evalBody (rec : Rec) (c : Nat) (tree : Tree) (saved : Option Nat) (s1 : St) 
 
 /-- `Computed.__call__` of the Computed `c` whose record is `x` -/
 def callC (rec : Rec) (c : Nat) (x : Comp) (s : St) : Option (St × R) :=
-  if !x.dirty then some (s, match x.value with | some v => .ok v | none => .err .noneVal)
+  if !x.dirty then some (s, .ok x.value.join)
   else
     let s0 := s.setComp c { x with first := false }
     if x.first then evalBody rec c x.tree s.cur s0
@@ -263,8 +293,7 @@ def callC (rec : Rec) (c : Nat) (x : Comp) (s : St) : Option (St × R) :=
       | some (s1, .ok false) =>
         match s1.comps c with
         | none => some ({ s1 with cur := s.cur }, .err .attr)
-        | some x1 => some ({ (s1.setComp c { x1 with dirty := false }) with cur := s.cur },
-            match x1.value with | some v => .ok v | none => .err .noneVal)
+        | some x1 => some ({ (s1.setComp c { x1 with dirty := false }) with cur := s.cur }, .ok x1.value.join)
 
 /-- `Computable.__get__` -/
 def getC (rec : Rec) (c : Nat) (s : St) : Option (St × R) :=
@@ -277,13 +306,13 @@ def getC (rec : Rec) (c : Nat) (s : St) : Option (St × R) :=
     | some (s1, .ok new) =>
       -- G8 repaired: the evaluating Computed remembers the value it is handed
       let added : St × R := match s1.cur with
-        | none => (s1, .ok 0)
+        | none => (s1, .ok none)
         | some p => addParent s1 p (.comp c) new
       match added with
       | (s2, .err e) => some (s2, .err e)
       | (s2, .ok _) =>
-        if some new ≠ x.value then
-          match rec (.notify (x.owner, x.name) x.value (some new)) s2 with
+        if new ≠ x.value.join then
+          match rec (.notify (x.owner, x.name) x.value.join new) s2 with
           | none => none
           | some (s3, .err e) => some (s3, .err e)
           | some (s3, .ok _) => some (s3, .ok new)
@@ -302,14 +331,14 @@ def exec : Nat → Task → St → Option (St × R)
 
 inductive Op where
   | define (c : Nat) (owner name : Nat) (tree : Tree)    -- `owner.name = Computed(func)`
-  | assign (k : Key) (v : Int)
+  | assign (k : Key) (v : V)
   | read (c : Nat)
   | observe (k : Key) (h : Nat)                           -- user handler on `change` of one name
   | unobserve (k : Key) (h : Nat)
   | drop (h : Nat)
 
 def init (decls : Nat → List Decl) (progs : Nat → List Nat) : St :=
-  { regs := fun o => { decls := decls o, subs := fun _ _ => [] }, dead := [], store := fun _ => 0,
+  { regs := fun o => { decls := decls o, subs := fun _ _ => [] }, dead := [], store := fun _ => some 0,
     comps := fun _ => none, progs := progs }
 
 /-- one top-level operation; `none` = out of fuel -/
@@ -321,12 +350,12 @@ def step (fuel : Nat) (s : St) : Op → Option (St × R)
   | .read c => exec fuel (.readC c) s
   | .observe k h =>
     match (s.regs k.1).observe (.one k.2) (.one .change) (Sub.user h) with
-    | .ok r => some (s.setReg k.1 r, .ok 0)
+    | .ok r => some (s.setReg k.1 r, .ok none)
     | .error e => some (s, .err e)
   | .unobserve k h =>
     match (s.regs k.1).unobserve s.alive (.one k.2) (.one .change) (Sub.user h) with
-    | .ok r => some (s.setReg k.1 r, .ok 0)
+    | .ok r => some (s.setReg k.1 r, .ok none)
     | .error e => some (s, .err e)
-  | .drop h => some ({ s with dead := h :: s.dead }, .ok 0)
+  | .drop h => some ({ s with dead := h :: s.dead }, .ok none)
 
 end Mesa.Computed
